@@ -288,8 +288,7 @@ theorem step_dispatchMatches (t : Tx) (s a : Option ConnId) (m : Msg) :
 
 theorem step_sigOwnerChanged (t : Tx) (n old new : Bytes) : Step KCore noFw t (sigOwnerChanged t n old new) := by
   unfold sigOwnerChanged
-  obtain ⟨hc, l, hl, hd⟩ := dispatchMatches_spec t none none
-    ((mkSignal (ascii' "NameOwnerChanged") [tStr, tStr, tStr] [sStr n, sStr old, sStr new]).setSender BUS_NAME)
+  obtain ⟨hc, l, hl, hd⟩ := dispatchMatches_spec t none none (ownerChangedMsg n old new)
   refine ⟨hc, l, hl, ?_⟩
   intro o ho
   obtain ⟨to, rfl⟩ := hd o ho
@@ -411,9 +410,9 @@ def KDrv := KMod eraseOR
 theorem KReg_to_KDrv {b b' : Bus} (h : KReg b b') : KDrv b b' := KMod.weaken eraseOR_eraseOwned h
 
 theorem kdrv_updRules (b : Bus) (c : ConnId) (g : List MatchRule → List MatchRule) :
-    KDrv b (b.updConn c fun x => { x with rules := g x.rules }) := by
+    KDrv b (b.updRules c g) := by
   refine ⟨?_, rfl, rfl, rfl, rfl, rfl⟩
-  unfold Bus.updConn
+  unfold Bus.updRules Bus.updConn
   apply map_map_erase
   intro x
   split <;> rfl
@@ -421,6 +420,9 @@ theorem kdrv_updRules (b : Bus) (c : ConnId) (g : List MatchRule → List MatchR
 theorem step_reply_drv (t : Tx) (c : ConnId) (call : Msg) (tys : List Ty) (body : List Val) :
     Step KDrv noFw t (reply t c call tys body) :=
   (step_reply t c call tys body).mono (fun _ _ h => KMod.of_core _ h) (fun _ h => h)
+
+theorem step_mapBus {K : Bus → Bus → Prop} {fw : Msg → Prop} (t : Tx) (f : Bus → Bus) (h : K t.bus (f t.bus)) :
+    Step K fw t (t.mapBus f) := ⟨h, [], by simp [Tx.mapBus], by intro o ho; cases ho⟩
 
 theorem step_bus_only {K : Bus → Bus → Prop} {fw : Msg → Prop} (t : Tx) (b' : Bus) (h : K t.bus b') :
     Step K fw t { t with bus := b' } := ⟨h, [], by simp, by intro o ho; cases ho⟩
@@ -493,10 +495,11 @@ theorem step_runMethod_any (t : Tx) (c : ConnId) (m : Msg) (w : Method) :
   | removeMatch =>
     simp only [runMethod]
     repeat' split
+    all_goals (try dsimp only)
     all_goals first
       | exact Step.refl KAny.refl t
       | exact drv (step_reply_drv _ _ _ _ _)
-      | exact Step.trans KAny.trans (drv (step_reply_drv _ _ _ _ _)) (step_bus_only _ _ trivial)
+      | exact Step.trans KAny.trans (drv (step_reply_drv t c m [] [])) (step_mapBus (reply t c m [] []) _ trivial)
   | becomeMonitor => exact Step.refl KAny.refl t
   | opaqueM => exact ⟨trivial, [.opaque c m.serial], rfl, by intro o ho; simp at ho; subst ho; trivial⟩
 
@@ -515,9 +518,6 @@ theorem step_fold {α : Type} {K : Bus → Bus → Prop} {fw : Msg → Prop} (hr
     ∀ (l : List α) (t : Tx), Step K fw t (l.foldl f t)
   | [], t => Step.refl hr t
   | a :: l, t => Step.trans ht (hf t a) (step_fold hr ht f hf l _)
-
-theorem step_mapBus {K : Bus → Bus → Prop} {fw : Msg → Prop} (t : Tx) (f : Bus → Bus) (h : K t.bus (f t.bus)) :
-    Step K fw t (t.mapBus f) := ⟨h, [], by simp [Tx.mapBus], by intro o ho; cases ho⟩
 
 theorem step_setPending {fw : Msg → Prop} (t : Tx) (p : List Pending) : Step KCore fw t (t.setPending p) :=
   ⟨rfl, [], by simp, by intro o ho; cases ho⟩
